@@ -26,6 +26,9 @@ type ConflictCase struct {
 	TopUpLate bool   `json:"top_up_late"`
 	SameKeys  bool   `json:"same_keys"`         // the sibling replays the same deposit history later (cache already knows its keys at indices >= its count)
 	Swapped   bool   `json:"swapped,omitempty"` // the sibling includes the same new keys in pairwise swapped order (cache knows a key at a HIGHER index than the sibling assigns)
+	// BadPopS (with SameKeys): the sibling's deposits are for the very keys the main chain registered, but carry an
+	// invalid proof of possession: they must be skipped on the sibling although the shared cache knows those keys
+	BadPopS bool `json:"bad_pop_s,omitempty"`
 }
 
 // ConflictResult: Sig == "" means nothing wrong was seen.
@@ -57,6 +60,10 @@ func GenConflictCase(rt *rapid.T) *ConflictCase {
 		NewM: rapid.IntRange(1, 4).Draw(rt, "new_m"), NewS: rapid.IntRange(1, 4).Draw(rt, "new_s"),
 		MaxDep: rapid.SampledFrom([]uint64{1, 2, 16}).Draw(rt, "max_dep"), SlotsM: rapid.IntRange(5, 9).Draw(rt, "slots_m"),
 		SlotsS: rapid.IntRange(5, 9).Draw(rt, "slots_s"), TopUpLate: rapid.Bool().Draw(rt, "top_up_late"), SameKeys: rapid.Bool().Draw(rt, "same_keys")}
+	if c.SameKeys && rapid.IntRange(0, 2).Draw(rt, "bad_pop_s") == 0 {
+		c.BadPopS = true
+		return c
+	}
 	if rapid.IntRange(0, 2).Draw(rt, "swapped") == 0 {
 		c.Swapped, c.SameKeys = true, false
 		if c.NewM < 2 {
@@ -128,8 +135,12 @@ func runConflict(c *ConflictCase) (out ConflictResult) {
 		for k := 1; k <= slots; k++ {
 			p := &BlockPlan{Seed: seed + uint64(k), AttMode: 1, Participation: 1000, SyncPm: 1000, Eth1Vote: 1}
 			if k == 1 {
+				kind := 0
+				if c.BadPopS && c.SameKeys && name == "sibling" {
+					kind = 2
+				}
 				for i := 0; i < nNew; i++ {
-					p.Queue = append(p.Queue, DepPlan{Kind: 0, Amount: 0, Eth1: true})
+					p.Queue = append(p.Queue, DepPlan{Kind: kind, Amount: 0, Eth1: true})
 				}
 			}
 			if c.TopUpLate && k == slots-1 {
@@ -171,7 +182,10 @@ func runConflict(c *ConflictCase) (out ConflictResult) {
 	if !drive(m, "main(after sibling)", c.SeedM+77, 0, 3) || stop {
 		return out
 	}
-	if len(m.St.Validators) > 12 && len(s.St.Validators) > 12 {
+	if c.BadPopS && c.SameKeys && len(m.St.Validators) > 12 && len(s.Chain.Datas) > 12 {
+		out.NonTrivial = true
+		out.Class = "sibling-bad-pop-of-keys-the-cache-knows"
+	} else if len(m.St.Validators) > 12 && len(s.St.Validators) > 12 {
 		out.NonTrivial = true
 		switch {
 		case c.Swapped:
